@@ -147,15 +147,6 @@ def main(argv=None):
     jobs = a.jobs or (min(16, os.cpu_count() or 4) if tier == "thorough" else min(max(4, nshards), os.cpu_count() or 4))
     timeout = budget * 4 + 300
 
-    results = []
-    with concurrent.futures.ThreadPoolExecutor(max_workers=jobs) as ex:
-        futs = [
-            ex.submit(run_shard, prop, s, nshards, tier, seed, scratch, repo_dir, budget, timeout, a.replay)
-            for s in shards
-        ]
-        for f in futs:
-            results.append(f.result())
-
     counters = Counter()
     distinct = set()
     violations = []
@@ -165,48 +156,78 @@ def main(argv=None):
     samples = []
     mech = defaultdict(lambda: [set(), 0])
     extra = {}
-    for r in results:
-        recs = read_records(r["out"])
-        done = False
-        for rec in recs:
-            t = rec.get("t")
-            if t == "counters":
-                counters.update(rec["c"])
-            elif t == "distinct":
-                distinct.update(rec["k"])
-            elif t == "violation":
-                rec["shard"] = r["shard"]
-                violations.append(rec)
-            elif t == "observation":
-                obs_count[rec["name"]] += rec.get("n", 1)
-                if len(observations[rec["name"]]) < 5 and rec.get("detail") is not None:
-                    observations[rec["name"]].append(rec["detail"])
-            elif t == "inconclusive":
-                inconclusive.append(rec["reason"])
-            elif t == "sample":
-                if len(samples) < 12:
-                    samples.append(rec["s"])
-            elif t == "mech":
-                for fn, d in rec["m"].items():
-                    mech[fn][0] |= set(d["hit"])
-                    mech[fn][1] = max(mech[fn][1], d["total"])
-            elif t == "extra":
-                for k, v in rec["x"].items():
-                    if isinstance(v, (int, float)) and isinstance(extra.get(k), (int, float)):
-                        extra[k] += v
-                    elif isinstance(v, list) and isinstance(extra.get(k), list):
-                        extra[k] = sorted(set(map(json.dumps, extra[k])) | set(map(json.dumps, v)))
-                        extra[k] = [json.loads(x) for x in extra[k]]
-                    elif isinstance(v, bool) and isinstance(extra.get(k), bool):
-                        extra[k] = extra[k] and v
-                    else:
-                        extra.setdefault(k, v)
-            elif t == "done":
-                done = True
-        if not done:
-            inconclusive.append(
-                f"worker shard {r['shard']} ended without completing (rc={r['rc']}): " + r["stderr"][-1500:].replace("\n", " | ")
-            )
+
+    def run_round(shard_ids, topup):
+        results = []
+        with concurrent.futures.ThreadPoolExecutor(max_workers=jobs) as ex:
+            futs = [
+                ex.submit(run_shard, prop, s, nshards, tier, seed, scratch, repo_dir, budget, timeout, a.replay)
+                for s in shard_ids
+            ]
+            for f in futs:
+                results.append(f.result())
+        for r in results:
+            recs = read_records(r["out"])
+            done = False
+            for rec in recs:
+                t = rec.get("t")
+                if t == "counters":
+                    counters.update(rec["c"])
+                elif t == "distinct":
+                    distinct.update(rec["k"])
+                elif t == "violation":
+                    rec["shard"] = r["shard"]
+                    violations.append(rec)
+                elif t == "observation":
+                    obs_count[rec["name"]] += rec.get("n", 1)
+                    if len(observations[rec["name"]]) < 5 and rec.get("detail") is not None:
+                        observations[rec["name"]].append(rec["detail"])
+                elif t == "inconclusive":
+                    inconclusive.append(rec["reason"])
+                elif t == "sample":
+                    if len(samples) < 12:
+                        samples.append(rec["s"])
+                elif t == "mech":
+                    for fn, d in rec["m"].items():
+                        mech[fn][0] |= set(d["hit"])
+                        mech[fn][1] = max(mech[fn][1], d["total"])
+                elif t == "extra" and not topup:  # exhaustiveness flags etc. describe the regular shards only
+                    for k, v in rec["x"].items():
+                        if isinstance(v, (int, float)) and isinstance(extra.get(k), (int, float)):
+                            extra[k] += v
+                        elif isinstance(v, list) and isinstance(extra.get(k), list):
+                            extra[k] = sorted(set(map(json.dumps, extra[k])) | set(map(json.dumps, v)))
+                            extra[k] = [json.loads(x) for x in extra[k]]
+                        elif isinstance(v, bool) and isinstance(extra.get(k), bool):
+                            extra[k] = extra[k] and v
+                        else:
+                            extra.setdefault(k, v)
+                elif t == "done":
+                    done = True
+            if not done:
+                inconclusive.append(
+                    f"worker shard {r['shard']} ended without completing (rc={r['rc']}): " + r["stderr"][-1500:].replace("\n", " | ")
+                )
+
+    def gate_shortfalls():
+        out = []
+        for name, need in meta.get("gates", {}).items():
+            n = need[tier] if isinstance(need, dict) else need
+            if counters.get(name, 0) < n:
+                out.append(name)
+        return out
+
+    run_round(shards, topup=False)
+    # Top-up rounds: the workloads are bounded by wall-clock deadlines, so on a loaded machine a run can end short of an
+    # adequacy gate although nothing is wrong.  When that is the *only* thing between the run and a verdict (no violation
+    # recorded, no worker failure), further shards with fresh shard numbers (hence fresh random streams; they take no part in
+    # the exhaustive enumerations, which are partitioned over the regular shards) are run and merged, at most twice.
+    topup_rounds = 0
+    while (not replay_spec and not violations and not inconclusive and gate_shortfalls() and topup_rounds < 2):
+        topup_rounds += 1
+        run_round([nshards * topup_rounds + s for s in shards], topup=True)
+    if topup_rounds:
+        counters["topup_rounds_after_gate_shortfall"] = topup_rounds
 
     known = load_known(prop)
     known_hit = Counter()
